@@ -1,6 +1,7 @@
 package main
 
 import (
+	"strings"
 	"fmt"
 	"go/types"
 	"math"
@@ -18,7 +19,22 @@ func nan() float64 { return math.NaN() }
 
 func (c *Ctx) mapKey(t types.Type) string {
 	mt := t.Underlying().(*types.Map)
-	return "map!" + c.sortOf(mt.Key()) + "!" + c.sortOf(mt.Elem())
+	// reference-typed elements of different Go types share an SMT sort (Ptr, Slice,
+	// Int for maps); the Go type is kept in the key (after '@') so that maps of
+	// different Go types live in different heaps and cannot alias
+	v := c.sortOf(mt.Elem())
+	if isRefType(mt.Elem()) {
+		v += "@" + sanitize(types.TypeString(mt.Elem(), nil))
+	}
+	return "map!" + c.sortOf(mt.Key()) + "!" + v
+}
+
+// mapValSort strips the Go-type tag from the value part of a map key.
+func mapValSort(v string) string {
+	if i := strings.Index(v, "@"); i >= 0 {
+		return v[:i]
+	}
+	return v
 }
 
 func (c *Ctx) mapHeaps(st *State, t types.Type) (dom, val string) {
